@@ -242,7 +242,7 @@ func c08Body(c *ev.Ctx) {
 	}, func() bool { return c.Expired() })
 	_ = proved
 	_ = shortSeen
-	runLibIsolation(c, 2, 3, 4, 5) // input-hash helpers, parameter JSON
+	runPairIsolation(c, libScenarios(c, 2, 3, 4, 5)) // input-hash helpers, parameter JSON
 	evals = int64(done)
 	for _, cs := range cases {
 		if cs.Kind == "gen" {
